@@ -176,6 +176,7 @@ type Config struct {
 	CaseName      string
 	StopAtFirst   bool
 	Params        map[string]int
+	Solver        string
 }
 
 type caseReq struct {
@@ -217,7 +218,11 @@ func NewCtx(prog *ssa.Program, cfg Config) *Ctx {
 	c := &Ctx{tb: NewTB(), prog: prog, cfg: cfg, funcs: map[*ssa.Function]int{}, slots: map[*ssa.Function]map[ssa.Value]int{},
 		globals: map[*ssa.Global]int{}, inited: map[*ssa.Package]bool{}, satCache: map[string]satEntry{}, varsOf: map[int][]string{},
 		reachAll: map[string]bool{}, asserts: map[string]int{}}
-	c.solver = NewSolver(envOr("GOSMT_SOLVER", "z3"))
+	sk := envOr("GOSMT_SOLVER", "z3")
+	if cfg.Solver != "" {
+		sk = cfg.Solver
+	}
+	c.solver = NewSolver(sk)
 	if c.cfg.Unwind == 0 {
 		c.cfg.Unwind = 64
 	}
